@@ -71,6 +71,7 @@ pub struct Build {
     pub seed: u64,
     pub domain: u8,
     pub sdo: u16,
+    pub clock: Option<Arc<Mutex<SimClock>>>,
 }
 
 impl Build {
@@ -98,6 +99,7 @@ impl Build {
             seed: 1,
             domain: 0,
             sdo: 0,
+            clock: None,
         }
     }
 
@@ -132,7 +134,7 @@ impl Build {
             ports.push(PortCfg { cfg: pc, filter: filter.clone(), rng_seed: self.seed.wrapping_mul(1000).wrapping_add(i as u64) });
         }
         let cfg = NodeCfg { inst, tp: self.tp, ports, tlv: self.tlv };
-        let node = Node::new(cfg, perfect_clock(self.start_units))?;
+        let node = Node::new(cfg, self.clock.clone().unwrap_or_else(|| perfect_clock(self.start_units)))?;
         Ok(Built { node, rec })
     }
 }
